@@ -173,6 +173,7 @@ class Listener(threading.Thread):
         self.lock = threading.Lock()
         self.stop = False
         self.own_ports: set[int] = set()
+        self.max_tls: typing.Any = None
         self.foreign = 0
         self.idle_timeout = 3.0
         self.handlers: list[threading.Thread] = []
@@ -308,6 +309,8 @@ class Listener(threading.Thread):
         base = self.certs.get(*leaf)
         ctx = ssl.SSLContext(ssl.PROTOCOL_TLS_SERVER)
         ctx.load_cert_chain(base["path"])
+        if self.max_tls is not None:
+            ctx.maximum_version = self.max_tls
 
         def cb(sslobj: typing.Any, name: str | None, _ctx: typing.Any) -> None:
             e[field] = name
@@ -346,6 +349,12 @@ class Listener(threading.Thread):
                 stream.sendall(wire.build_response(200, body=("origin:" + req.target.decode("latin-1")).encode(), keepalive=not closing or bool(cfg.get("silent_close"))))
             if closing:
                 return
+            if cfg.get("stray_after_request") == served:
+                # unsolicited bytes on the idle connection, in a record of their own, a moment after the response
+                time.sleep(0.03)
+                kind = cfg.get("stray_kind", "response")
+                stream.sendall(wire.build_response(200, "STRAY", body=b"STRAY-unsolicited-after:" + req.target) if kind == "response" else b"\x00\x01stray-garbage")
+                e["stray_sent"] = True
 
 
 def redirect_for(cfg: dict[str, typing.Any], target: str) -> str | None:
